@@ -18,8 +18,8 @@ RANK = {'USER': 0, 'UNIQUE': 1, 'RANGE': 2}
 
 
 def data_index_state(ctx, rule='C10-R1'):
-    """State of the index of the frame stored in self._data, and of every label-based row operation
-    applied to it on the way."""
+    """State of the index of the frame stored in self._data on every path, and of every label-based row
+    operation applied to it on the way."""
     p = ctx.project
     f = p.func(INIT, rule)
     ctx.saw(f)
@@ -29,51 +29,89 @@ def data_index_state(ctx, rule='C10-R1'):
     stores = [e for e in s.events if e.kind == 'store' and e.target == ('attr', SELF, '_data')]
     if len(stores) != 1:
         raise AnalysisError(rule, f'{len(stores)} assignments to self._data in AbstractChunk.__init__')
-    ops = flatten(stores[0].value)[::-1]     # oldest first
-    # locate the source statements of label-based operations for reporting
-    ev_by_kind = [e for e in s.events if e.kind in ('store', 'mutcall', 'assign', 'call')]
-    state = 'USER'
     cleanup = p.func('ampycloud.data.AbstractChunk._cleanup_pdf', rule)
-    label_ops = 0
-    for o in ops:
-        if o.kind == 'base':
-            state = 'USER'
-            continue
-        needs = None
-        if o.kind == 'set' and o.row is not None and o.row[0] == 'rows' and o.row[1] == 'lab':
-            needs = f"label-based write .loc[<labels>, '{o.col}']"
-        if o.kind == 'set' and o.row is not None and o.row[0] == 'cell':
-            needs = 'label-based cell write'
-        if o.kind == 'call' and o.name == 'drop' and dict(o.kws).get('axis', C(0)) in (C(0), C('index')):
-            needs = 'label-based row drop .drop(<labels>)'
-        if needs:
-            label_ops += 1
-            node = _find_node(s.events, o)
-            ctx.check(RANK[state] >= 1, rule, cleanup.qname, node if node is not None else cleanup.node.name,
-                      cleanup.func.loc(node) if False else (cleanup.loc(node) if node is not None else cleanup.loc()),
-                      f'{needs} is applied while the index still carries the caller\'s labels (never normalised): '
-                      'with repeated labels (pd.concat of per-ceilometer frames) it hits every row sharing a label '
-                      '- rows below the limit are blanked or dropped, or the selection no longer matches',
-                      facts={'index_state': state}, instance=f'_cleanup_pdf: {needs} needs unique labels')
-        if o.kind == 'call':
-            if o.name == 'reset_index':
-                state = 'RANGE'
-            elif o.name == 'set_index':
-                state = 'USER'
-            elif o.name == 'filter' or o.name in ROW_FILTERS or (o.name == 'drop' and dict(o.kws).get('axis', C(0)) in (C(0), C('index'))):
-                state = 'UNIQUE' if state == 'RANGE' else state
-            elif o.name in NEUTRAL or o.name == 'drop':
-                pass
-            else:
-                pass
+    reported = set()
+    ops_seen = []
+
+    def need(o_kind, what, state, guard, value, col):
+        key = (what, col, T.key(guard))
+        if key in reported:
+            return
+        reported.add(key)
+        node = _find_node2(s.events, what, col, value)
+        ctx.check(RANK[state] >= 1, rule, cleanup.qname, node if node is not None else cleanup.node.name,
+                  cleanup.loc(node) if node is not None else cleanup.loc(),
+                  f'{what} is applied while the index still carries the caller\'s labels (never normalised'
+                  + (f' on the path {T.show(guard, maxlen=80)}' if guard != T.TRUE else '') + '): '
+                  'with repeated labels (pd.concat of per-ceilometer frames) it hits every row sharing a label '
+                  '- rows below the limit are blanked or dropped, or the selection no longer matches',
+                  facts={'index_state': state}, instance=f'_cleanup_pdf: {what} needs unique labels')
+
+    def walk(t, guard, lphi_state):
+        """index state of frame term t under path condition guard"""
+        tg = tag(t)
+        if tg == 'phi':
+            states = [walk(v, T.mk_and([guard, g]), lphi_state) for g, v in t[1]]
+            return min(states, key=lambda x: RANK[x])
+        if tg == 'upd':
+            st = walk(t[1], guard, lphi_state)
+            tgt = t[2]
+            lab_rows = [x for x in T.walk(tgt) if tag(x) == 'rows' and x[2] == 'lab' and x[1] == ('it',)]
+            lab_cell = [x for x in T.walk(tgt) if tag(x) == 'cell' and x[2][0] == 'lab' and x[1] == ('it',)]
+            cols = [x[2] for x in T.walk(tgt) if tag(x) == 'col'] + [x[3] for x in lab_cell]
+            if lab_rows or lab_cell:
+                need('set', f"label-based write .loc[<labels>, '{cols[0] if cols else '?'}']", st, guard, t[3],
+                     cols[0] if cols else None)
+            return st
+        if tg == 'mcall':
+            st = walk(t[1], guard, lphi_state)
+            ops_seen.append(t[2])
+            name, kws = t[2], dict(t[4])
+            rowdrop = name == 'drop' and kws.get('axis', C(0)) in (C(0), C('index'))
+            if rowdrop:
+                need('call', 'label-based row drop .drop(<labels>)', st, guard, None, None)
+            if name == 'reset_index':
+                return 'RANGE'
+            if name in ('set_index', 'reindex', 'set_axis'):
+                return 'USER'
+            if name in ROW_FILTERS or rowdrop:
+                return 'UNIQUE' if st == 'RANGE' else st
+            return st
+        if tg == 'mask':
+            st = walk(t[1], guard, lphi_state)
+            ops_seen.append('filter')
+            return 'UNIQUE' if st == 'RANGE' else st
+        if tg == 'loopres':
+            st0 = walk(t[3], guard, lphi_state)
+            inner = dict(lphi_state)
+            inner[(t[1], t[2])] = st0
+            return walk(t[4], guard, inner)
+        if tg == 'lphi':
+            return lphi_state.get((t[1], t[2]), 'USER')
+        return 'USER'        # the caller's frame (or a copy of it)
+    state = walk(stores[0].value, T.TRUE, {})
     ctx.tables['index_state_of_self._data'] = state
     ctx.check(RANK[state] >= 1, rule, INIT, stores[0].node, stores[0].loc(),
-              'the frame stored as chunk data keeps the caller\'s index labels (no reset_index on the private copy): '
-              'every later label-based operation (boolean-Series selection after sorting by time, writes through '
-              '.loc[<labels>], group-id write-back by index) depends on those labels being unique',
-              facts={'index_state': state, 'operations': [o.name or f'set {o.col}' for o in ops]},
-              instance='self._data has a normalised (unique) index')
+              'on some path the frame stored as chunk data keeps the caller\'s index labels (no reset_index on the '
+              'private copy): every later label-based operation (boolean-Series selection after sorting by time, '
+              'writes through .loc[<labels>], group-id write-back by index) depends on those labels being unique',
+              facts={'index_state': state, 'operations': ops_seen},
+              instance='self._data has a normalised (unique) index on every path')
     return state
+
+
+def _find_node2(events, what, col, value):
+    for e in events:
+        if what.startswith('label-based write') and e.kind == 'store' and tag(e.target) in ('col', 'cols') \
+                and T.contains(e.target, lambda x: tag(x) == 'rows'):
+            c = e.target[2] if tag(e.target) == 'col' else e.target[2][0]
+            if c == col and e.value == value:
+                return e.node
+        if what.startswith('label-based row drop') and e.kind in ('assign', 'mutcall', 'call'):
+            c = e.value if e.kind == 'assign' else e.call
+            if tag(c) == 'mcall' and c[2] == 'drop':
+                return e.node
+    return None
 
 
 def _find_node(events, op):
